@@ -37,7 +37,9 @@
      [kind |-> "doc",   fEncrypted, fObfuscated \in BOOLEAN]        ([MS-DOC] FibBase, bits 0x0100, 0x8000)
      [kind |-> "odf",   enc \in {"utf8","utf16"}, prefix \in {"manifest","m"},
                         entries \in Seq([name : OdfNames, ed : BOOLEAN])]   ed = has an encryption-data child
-     [kind |-> "pdf",   alg \in PdfAlgs, userEmpty \in BOOLEAN]
+     [kind |-> "pdf",   alg \in PdfAlgs, userEmpty \in BOOLEAN, owner \in {"same", "distinct"}]
+                         owner = "same": the owner password equals the user password (also what a writer
+                         produces when no owner password is given); "distinct": another, non-empty one
      [kind |-> "zip",   members \in Seq([fc, fl, dir : BOOLEAN, err : {"none","unsupported","badcrc"}])]
                          fc / fl = general purpose bit 0 in the central directory / local header
      [kind |-> "sevenz", hdr \in HdrKinds, folders \in Seq(Seq(CoderIds))]
@@ -188,9 +190,13 @@ ClassOdf(c) == IF \E i \in DOMAIN c.entries : c.entries[i].ed THEN "MUST" ELSE "
 (* ================================================================================ PDF ==== *)
 PdfAlgs == { "none", "RC4-40", "RC4-128", "AES-128", "AES-256-R5", "AES-256" }
 
-\* reader.decrypt(""): 0 = NOT_DECRYPTED, 1 = USER_PASSWORD (the harness cannot write an empty owner
-\* password with a non-empty user password, so 2 = OWNER_PASSWORD does not occur in the universe)
-DecryptEmpty(c) == IF c.userEmpty THEN 1 ELSE 0
+\* reader.decrypt(""): 0 = NOT_DECRYPTED, 1 = USER_PASSWORD, 2 = OWNER_PASSWORD.  pypdf tries the owner
+\* password first: "" matches the owner entry whenever the owner password is the (empty) user password.
+\* (An empty owner password next to a non-empty user password cannot be written and is not in the universe.)
+PdfOwners == { "same", "distinct" }
+DecryptEmpty(c) == IF ~c.userEmpty THEN 0
+                   ELSE IF c.owner = "same" THEN 2 ELSE 1
+\* if decrypt_result == 0: raise ExtractionFileEncryptedError   -- both 1 and 2 open the document
 DetectPdf(c) == IF c.alg = "none" THEN FALSE          \* not reader.is_encrypted
                 ELSE DecryptEmpty(c) = 0
 \* ISO 32000-1 7.6.3.4: a document whose user password is the empty string opens without a password
